@@ -97,6 +97,19 @@ def judge(report, module, events, chunk=60000, timeout=1500, relevant=None):
     return nrej
 
 
+def corrupt_value(r):
+    """A recorded weight that is certainly different from r (also beyond the fixed-point tolerance)."""
+    if isinstance(r, int):
+        return 0 if r else 1
+    if len(r) == 3:
+        return [r[0] + 5000, r[1], 0]
+    if len(r) == 1:
+        return [1, 7]
+    if isinstance(r[0], list):
+        return [corrupt_value(r[0]), r[1]]
+    return [r[0] + 5 * r[1], r[1]]
+
+
 def selftest_numeric(events, rng, ops=("parse", "prefix"), field="res", n=12):
     """Corrupt one recorded numeric field: the trace specification must reject the line."""
     import copy
@@ -106,11 +119,7 @@ def selftest_numeric(events, rng, ops=("parse", "prefix"), field="res", n=12):
     for e in cands[:n]:
         c = copy.deepcopy(e)
         c["expect"] = "reject"
-        r = c[field]
-        if isinstance(r, int):
-            c[field] = 0 if r else 1
-        else:
-            c[field] = [r[0] + 1, r[1]]
+        c[field] = corrupt_value(c[field])
         out.append(c)
     return out
 
